@@ -10,6 +10,8 @@ From Servitor.Facts Require Import LinkFacts.
 Local Open Scope Z_scope.
 From Servitor Require Import Mime Pub.
 From Servitor.Facts Require Import HtmlFacts MarkupFacts PubFacts.
+From Servitor Require Import Json Object Links.
+From Servitor.Facts Require Import LinksFacts.
 
 (* rendering ANY tree only appends targets, and every appended target is labelled with exactly its 1-based position: no repeats, no gaps, document order - anchors inside anchors, images inside anchors, media without src, anchors without href included *)
 Theorem render_node_labels :
@@ -169,3 +171,71 @@ Theorem link_select_none :
   link_select l d = None <-> (forall u : text, l_uri l <> FOk u).
 Proof. exact link_select_none_fact. Qed.
 Print Assumptions link_select_none.
+
+(* FROM THE JSON: the number printed next to the j-th attachment selects the link built from the j-th element of the document's attachment list *)
+Theorem attachment_opens_json_link :
+  forall (url_parse : text -> option text) (o : obj) (p : post) (ls : list link) 
+  (j : nat) (l : link),
+  p_attachments p = post_attachments_of url_parse o ->
+  post_attachments_of url_parse o = FOk ls ->
+  nth_error ls j = Some l ->
+  post_select_link p (Z.of_nat (length (p_body_links p) + j + 1)) = link_select l mt_unknown /\
+  (exists (vs : list jv) (v : jv),
+  get_list o s_attachment = Present vs /\
+  nth_error vs j = Some v /\ new_link url_parse v = FOk l).
+Proof. exact attachment_opens_json_link_fact. Qed.
+Print Assumptions attachment_opens_json_link.
+
+(* links are built element by element, same length, same order *)
+Theorem all_links_spec :
+  forall (url_parse : text -> option text) (vs : list jv) (ls : list link),
+  all_links url_parse vs = FOk ls <->
+  Forall2 (fun (v : jv) (l : link) => new_link url_parse v = FOk l) vs ls.
+Proof. exact all_links_spec_fact. Qed.
+Print Assumptions all_links_spec.
+
+(* the address of a Link is its href, of every other kind its url *)
+Theorem new_link_uri :
+  forall (url_parse : text -> option text) (o : list (text * jv)) (l : link),
+  new_link url_parse (JObj o) = FOk l ->
+  l_uri l =
+  fval_of (get_url url_parse o (if text_eqb (l_kind l) k_link then s_lhref else s_lurl)).
+Proof. exact new_link_uri_fact. Qed.
+Print Assumptions new_link_uri.
+
+(* choosing among candidates (media of audio/video/image posts, profile picture, banner) never invents a link *)
+Theorem select_best_in :
+  forall (ls : list link) (sup : text) (l : link), select_best ls sup = Some l -> In l ls.
+Proof. exact select_best_in_fact. Qed.
+Print Assumptions select_best_in.
+
+(* a candidate of the wanted supertype beats every other, and among candidates of equal standing the larger area wins *)
+Theorem select_best_optimal :
+  forall (ls : list link) (sup : text) (l : link),
+  links_wf sup ls ->
+  select_best ls sup = Some l ->
+  forall l' : link,
+  In l' ls ->
+  (sup_matches l' sup = Some true -> sup_matches l sup = Some true) /\
+  (sup_matches l' sup = sup_matches l sup ->
+  exists r r' : Z, rating l = Some r /\ rating l' = Some r' /\ r' <= r).
+Proof. exact select_best_optimal_fact. Qed.
+Print Assumptions select_best_optimal.
+
+(* the chosen link is the FIRST optimal one *)
+Theorem select_best_first_of_ties :
+  forall (ls : list link) (sup : text) (l : link),
+  links_wf sup ls ->
+  select_best ls sup = Some l ->
+  exists pre post : list link,
+  ls = pre ++ l :: post /\
+  (forall y : link,
+  In y pre -> ~ (sup_matches y sup = sup_matches l sup /\ rating y = rating l)) /\
+  (forall y : link,
+  In y pre ->
+  ~
+  ((sup_matches l sup = Some true -> sup_matches y sup = Some true) /\
+  (sup_matches l sup = sup_matches y sup ->
+  exists r r' : Z, rating y = Some r /\ rating l = Some r' /\ r' <= r))).
+Proof. exact select_best_first_of_ties_fact. Qed.
+Print Assumptions select_best_first_of_ties.
